@@ -150,11 +150,11 @@ def unit(args: dict) -> dict:
 
 def families(tier: str, seed: int) -> List[gen.Spec]:
     q = tier == "quick"
-    return (gen.family_T_random(seed, 12 if q else 300, min_states=3, max_states=5 if q else 6)
-            + gen.family_H(seed + 1, 3 if q else 100)
-            + gen.family_D(seed + 2, 4 if q else 100)
-            + gen.family_R(seed + 3, 20 if q else 300)
-            + gen.family_S(seed + 4, 10 if q else 150))
+    return (gen.family_T_random(seed, 12 if q else 75, min_states=3, max_states=5 if q else 6)
+            + gen.family_H(seed + 1, 3 if q else 25)
+            + gen.family_D(seed + 2, 4 if q else 25)
+            + gen.family_R(seed + 3, 20 if q else 75)
+            + gen.family_S(seed + 4, 10 if q else 37))
 
 
 def run(prop: str, tier: str, seed: int) -> int:
